@@ -88,7 +88,7 @@ def prepare_base():
         vcommon.sh(["python3", os.path.join(SUPPORT, "mk-target.py"), tjson], timeout=120, check=True)
     with open(os.path.join(SUPPORT, "base-Cargo.toml.in")) as f:
         tmpl = f.read()
-    ctx = {"target_json": tjson}
+    ctx = {"target_json": tjson, "wasip3_lib": os.path.join(vcommon.REPO, "crates", "guest-rust", "src", "rt", "libwit_bindgen_cabi_wasip3.a")}
     for kind, feats in (("wasm", FEATURES_WASM), ("host", FEATURES_HOST)):
         proj = os.path.join(root, "base-" + kind)
         os.makedirs(proj, exist_ok=True)
@@ -137,17 +137,21 @@ def _first_error(text):
     return "", ""
 
 
-RUST_KEEP = ("Self", "self", "super", "crate")
+BUCKETS = [
+    (r"no method named `wit_map_len`", "WitMap-trait-not-in-scope"),
+]
+# error codes a clash between a WIT name and a generator temporary typically produces
+TEMP_CODES = {"E0308", "E0277", "E0599", "E0425", "E0061", "E0606", "E0614", "E0600", "E0369", "E0609", "E0610"}
 
 
 def run_job(job, workroot, ctx):
     d = os.path.join(workroot, "out-" + vcommon.stable_hash(job["id"]))
-    world = job["world"]
-    if world is None:
-        info = compz.world_info(job["wit"])
-        world = info.get("world")
-        if not world:
-            return {"status": "inconclusive", "why": "cannot select a world: %s" % info.get("error", "")[:100]}
+    info = compz.world_info(job["wit"])
+    world = job["world"] or info.get("world")
+    if not world or "sync_funcs" not in info:
+        return {"status": "inconclusive", "why": "cannot select a world: %s" % info.get("error", "")[:100]}
+    # see C12: `--async=all` over sync-typed functions cannot be componentized by anyone
+    build_only = "--async=all" in job["args"] and info["sync_funcs"] > 0
     st, detail = compz.run_generator("rust", job["wit"], world, d, ["--stubs"] + job["args"], wasm_imports=True)
     if st != "ok":
         return {"status": "inconclusive", "why": "rust generator %s (C16's business)" % st, "detail": detail[-300:]}
@@ -170,7 +174,11 @@ def run_job(job, workroot, ctx):
             return {"status": "inconclusive", "why": "rustc (%s) failed without a diagnostic" % stage, "detail": err[-300:]}
         if "internal compiler error" in err or msg.startswith("the compiler unexpectedly panicked"):
             return {"status": "inconclusive", "why": "rustc ICE (%s)" % stage, "detail": err[-300:]}
-        return {"status": "violation", "stage": "rustc", "sig": "rust:rustc:%s:%s" % (code or "error", compz.normalise(msg, RUST_KEEP)),
+        wit_text = compz.read_wit(job["wit"])
+        root = compz.bucket(msg, BUCKETS) or compz.keyword_root_cause(err, wit_text, compz.RUST_KEYWORDS)
+        if not root and job["source"] == "random" and code in TEMP_CODES and compz.GENERATOR_TEMPORARIES.search(wit_text):
+            root = "maybe-generator-temporary-collision:" + code
+        return {"status": "violation", "stage": "rustc", "sig": compz.signature(job, "rust:rustc:", root or "%s:%s" % (code or "error", compz.normalise_rust(msg))),
                 "what": "%s: error%s: %s" % (what, "[%s]" % code if code else "", msg), "detail": err[:2500]}
 
     # native type-check, as crates/test/src/rust.rs `verify` (without -Dwarnings)
@@ -202,6 +210,10 @@ def run_job(job, workroot, ctx):
     cmd = ["rustc", "+nightly", "--edition=2021", "--target", ctx["target_json"], "-Zunstable-options", "--sysroot", ctx["sysroot"],
            "-C", "linker=" + ctx["linker"], "-C", "debuginfo=0", "--crate-type=cdylib", "--crate-name", "verif_guest",
            "-L", "dependency=" + wasm["deps"], "--extern", "wit_bindgen=" + wasm["wit_bindgen"], "-o", module, os.path.join(SUPPORT, "guest-root.rs")]
+    if os.path.exists(ctx["wasip3_lib"]):
+        # build.rs links this shim only for target_env="p3"; any other wasm32
+        # target needs `wasip3_task_set` from somewhere for async bindings
+        cmd += ["-C", "link-arg=" + ctx["wasip3_lib"]]
     rc, out, err = vcommon.sh(cmd, env=env, timeout=900)
     if rc is None:
         return {"status": "inconclusive", "why": "rustc watchdog timeout (wasm32)"}
@@ -209,9 +221,12 @@ def run_job(job, workroot, ctx):
         if "linking with" in err and "failed" in err:
             m = re.search(r"(rust-lld|wasm-ld): error: (.*)", err)
             msg = m.group(2) if m else "link failure"
-            return {"status": "violation", "stage": "rustc", "sig": "rust:rustc:link:" + compz.normalise(msg), "what": "wasm32 link fails: " + msg, "detail": err[:2500]}
+            return {"status": "violation", "stage": "rustc", "sig": compz.signature(job, "rust:rustc:link:", compz.normalise(re.sub(r"\([^)]*\.o\)", "", msg))), "what": "wasm32 link fails: " + msg, "detail": err[:2500]}
         return fail("wasm32", err, "wasm32 build fails")
     res["wasm"] = True
+    if build_only:
+        res["build_only"] = True
+        return res
     r = compz.cz(["encode-check", "--module", module, "--wit", job["wit"], "--world", world, "--imports", "subset"])
     res["imports"] = r.get("got_import_funcs", 0)
     res["exports"] = r.get("got_export_funcs", 0)
@@ -221,10 +236,10 @@ def run_job(job, workroot, ctx):
     if stage in ("harness", "encoder-panic", "decode"):
         return {"status": "inconclusive", "why": "componentize %s: %s" % (stage, compz.normalise(r.get("error", "")))}
     if stage == "encode":
-        return {"status": "violation", "stage": "encode", "sig": "rust:encode:" + compz.normalise(r.get("error", "").split(": ")[-1]),
+        return {"status": "violation", "stage": "encode", "sig": compz.signature(job, "rust:encode:", compz.normalise(re.sub(r"\(at offset 0x[0-9a-f]+\)", "", r.get("error", "").split(": ")[-1]))),
                 "what": "component encoder rejects the module: " + r.get("error", "")[:600]}
     kinds = sorted({k for k, _ in r.get("diff", [])})
-    return {"status": "violation", "stage": "world-mismatch", "sig": "rust:world-mismatch:" + "+".join(kinds),
+    return {"status": "violation", "stage": "world-mismatch", "sig": compz.signature(job, "rust:world-mismatch:", "+".join(kinds)),
             "what": "decoded world differs from the requested one: " + "; ".join(x for _, x in r.get("diff", [])[:4])}
 
 
@@ -250,13 +265,14 @@ def run(tier, seed, replay):
         wasm_built = 0
         native_checks = 0
         with concurrent.futures.ThreadPoolExecutor(max_workers=vcommon.NPROC) as ex:
-            futs = {ex.submit(run_job, j, work, ctx): j for j in jobs}
+            futs = {ex.submit(compz.retry_lowercased, j, work, lambda jj: run_job(jj, work, ctx)): j for j in jobs}
+            results = []
             for fut in concurrent.futures.as_completed(futs):
-                j = futs[fut]
                 try:
-                    r = fut.result()
+                    results += fut.result()
                 except Exception as e:
-                    r = {"status": "inconclusive", "why": "harness exception %s" % type(e).__name__, "detail": str(e)[:200]}
+                    results.append((futs[fut], {"status": "inconclusive", "why": "harness exception %s" % type(e).__name__, "detail": str(e)[:200]}))
+            for j, r in results:
                 counts[r["status"]] += 1
                 if r["status"] == "ok":
                     per_variant[j["variant"]] = per_variant.get(j["variant"], 0) + 1
@@ -274,7 +290,10 @@ def run(tier, seed, replay):
                     rep.inconc(r["why"])
         rep.extra.update({"jobs": len(jobs), "outcomes": counts, "ok_per_variant": per_variant, "plan": stats,
                           "wasm32_modules_componentized": wasm_built, "native_typechecks": native_checks})
-        rep.assumptions += ["wit-bindgen guest crate built without its `std` feature for the wasm32 build (no std on the custom target)",
+        rep.assumptions += ["`--async=all` over a world with sync-typed functions is built but not componentized (wasmparser rejects the `async` "
+                            "canonical option on a non-async function type)",
+                            "libwit_bindgen_cabi_wasip3.a from the working tree is linked explicitly (build.rs links it only for target_env=p3)",
+                            "wit-bindgen guest crate built without its `std` feature for the wasm32 build (no std on the custom target)",
                             "generator errors/panics are C16's business and counted as inconclusive here"]
     finally:
         vcommon.rm_scratch(work)
@@ -293,4 +312,4 @@ def dbg_plan(tier, seed, work):
 
 
 def dbg_run(job, work, ctx):
-    return run_job(job, work, ctx)
+    return compz.retry_lowercased(job, work, lambda jj: run_job(jj, work, ctx))
